@@ -20,6 +20,19 @@ T = {
  "S-C16a": ("C16","pkg/recovery/index.go: a damaged header during resync returns an error instead of being skipped", "index absent + tape cut inside the header of its last record: Initialize treats the rebuild error as empty tape and appends a second root", ["C16"]),
  "S-C17a": ("C17","pkg/recovery/index.go: next record position = size/512+1 blocks (wrong ceiling)", "foreign archive with a member whose size is a positive multiple of 512 followed directly by another file: that member cannot be read, later creates fail", ["C17","C04"]),
  "S-C18a": ("C18","pkg/keys/identity.go ParseIdentity: plaintext age keys skip the password step", "age pair generated with the empty password parses under every password", ["C18"]),
+ "S-C01b": ("C01","pkg/recovery/index.go: off-by-one (RecordSize-1) when stepping over a trailer that ends in the last block of a record", "an operation whose first header starts at block RecordSize-1 of a tape record: the live index substitutes the in-memory header, a rebuild parses the bare USTAR block without PAX/STFS records (deleted files come back, renamed files exist twice)", ["C01","C04"]),
+ "S-C02b": ("C02","pkg/persisters/metadata.go GetHeaderChildren: prefix length passed as Go byte length into SQL substr (characters)", "RemoveAll/Rename of a directory whose path contains a multi-byte character and that has children: descendants are left behind", ["C02","C12"]),
+ "S-C04b": ("C04","pkg/operations/update.go: metadata-only updates no longer reset STFS.ReplacesContent=false (the value is inherited from the stored PAX records)", "file written through a handle, then Chmod/Chown/Chtimes: the content position moves to the content-less metadata record; silent, survives rebuild", ["C04","C02"]),
+ "S-C05b": ("C05","pkg/fs/file.go Sync: filesystem lock dropped", "two goroutines on the SAME open handle: Write lands between the size pass and the copy pass of a concurrent Sync: tar header claims another size, tape left unaligned and unparsable", ["C11","C05"]),
+ "S-C06b": ("C06","pkg/fs/file.go Read: io.ReadFull with ErrUnexpectedEOF mapped to EOF", "tape cut inside the body of a content record, rebuild, read of that entry through File.Read: a cut-off copy is returned with a clean EOF", ["C06"]),
+ "S-C07b": ("C07","pkg/recovery/index.go indexHeader: a move whose target name is already live is treated as already applied", "re-index without wipe of any history with a rename whose target is still live: old names stay visible, content position overwritten", ["C07"]),
+ "S-C08b": ("C08","pkg/recovery/fetch.go: destination closed before the size check and the signature verification", "content bytes altered on the tape, file read through the streaming File.Read path: the pipe was already closed cleanly, the later signature error is dropped, the reader sees altered bytes and a clean EOF", ["C08"]),
+ "S-C10b": ("C10","pkg/recovery/index.go: resync position rounded down (same edit as S-C06a, found independently for C10)", "drive write fault that leaves the tape unaligned (padding write), then any next write: its re-index spins forever holding all locks", ["C10"]),
+ "S-C11b": ("C11","pkg/operations: diskOperationLock became an RWMutex, Restore takes the read lock", "two goroutines reading through different handles: the second restore is handed the first one's drive reader (TapeManager reuses an open reader), which is then closed under it: spurious 'file already closed'", ["C11","C14"]),
+ "S-C12b": ("C12","pkg/fs/filesystem.go Rename: own-subtree guard moved behind the replace-the-target block", "rename of a directory onto an existing EMPTY directory inside its own subtree: refused with EINVAL but the destination directory is already deleted", ["C12","C02"]),
+ "S-C13b": ("C13","pkg/fs/file.go syncWithoutLocking: directory test on Mode bits (always false) instead of Typeflag", "write handle open, file removed, directory with children created under the same name, stale handle closed: the directory's row becomes a regular file, children orphaned", ["C13","C02"]),
+ "S-C14b": ("C14","pkg/cache/write.go: in-memory cache grows in place without zeroing the hole", "memory cache, buffer shrunk earlier (Truncate / O_TRUNC reopen), then a write beyond the end: stale bytes instead of zeros in the hole", ["C14","C02"]),
+ "S-C16b": ("C16","pkg/persisters/metadata.go UpsertHeader: existence lookup with the unsanitized name", "tape whose history created, removed and re-created a name, opened without an index: rebuild hits UNIQUE on the tombstone, Initialize re-roots the tape", ["C16","C01"]),
 }
 rows=[]
 for sid,(prop,change,needs,props) in sorted(T.items()):
